@@ -325,7 +325,9 @@ def check_sessions(ctx, rnd, nscripts, profile, stats, violations, vkeys):
         for (a, b) in session_variants(rnd, cmds):
             cases.append(session_case(a, b)); owner.append(si)
     # raw texts (not built from command lists): separators at the ends, runs of separators
-    raws = [";", "\n", ";;", ";\n;", "q;", ";q", "q\n", "\nq", "p r1;;p r2", " ; ;", "é;\U0001f34b\n€", ""]
+    raws = [";", "\n", ";;", ";\n;", "q;", ";q", "q\n", "\nq", "p r1;;p r2", " ; ;", "é;\U0001f34b\n€", "",
+            # carriage returns: part of a CRLF line end, at the very end, alone, inside a line
+            "p r1\r\np r2\r\n", "p r1\r", "\r", "p r1\r;p r2", "\r\n", "p r1\rp r2", "q\r", "echo a\rb\r\nq", "\r\r", ";\r;"]
     for r in raws:
         cases.append(session_case(r, "")); owner.append(len(scripts) + raws.index(r))
         cases.append(session_case(None, r)); owner.append(len(scripts) + raws.index(r))
